@@ -518,4 +518,407 @@ Proof.
         -- destruct Hprog as [[Hc|Hk]|Hk2]; [left; exact Hc | right; lia | right; lia].
 Qed.
 
+(* ---------- the outer loop ---------- *)
+Lemma map_const_repeat {A B} (f : A -> B) c l : (forall v, In v l -> f v = c) -> map f l = repeat c (length l).
+Proof.
+  induction l as [|a l IH]; intro H; simpl; [reflexivity|].
+  rewrite H by (left; reflexivity). rewrite IH; [reflexivity|]. intros v Hv. apply H. right. exact Hv.
+Qed.
+
+Lemma offs_nonempty : (length offs >= 1)%nat.
+Proof. destruct Hgood as (_ & _ & (v & rest & E) & _). rewrite E. simpl. lia. Qed.
+
+Lemma value_at_some j : (j < length offs)%nat -> exists v, value_at offs j = Some v.
+Proof.
+  intro H. unfold value_at. destruct (nth_error offs j) as [[v p]|] eqn:E; [exists v; reflexivity|].
+  apply nth_error_None in E. lia.
+Qed.
+
+Lemma value_at_lt j v : value_at offs j = Some v -> (j < length offs)%nat.
+Proof. intro H. destruct (value_at_nth _ _ H) as (p & Hp). apply nth_error_Some. congruence. Qed.
+
+Lemma spec_below_first first w :
+  value_at offs 0 = Some first -> str_lt w first -> spec w = NotFound.
+Proof.
+  intros Hf Hlt. apply spec_absent. intro Hin.
+  destruct G_first as (v & Hv & Hmin). rewrite Hf in Hv. inversion Hv; subst v.
+  specialize (Hmin _ Hin). apply str_le_not_gt in Hmin. contradiction.
+Qed.
+
+Lemma outer_ok : forall fuel vs done rngs total,
+  (length vs < fuel)%nat -> StronglySorted str_le vs ->
+  (forall w first, hd_error vs = Some w -> value_at offs 0 = Some first -> str_le first w) ->
+  rngs = map spec done -> total = (length done + length vs)%nat ->
+  outer fuel offs lv tbl total vs rngs = OK (map spec (done ++ vs)).
+Proof.
+  induction fuel as [|f IH]; intros vs done rngs total Hfuel Hvs Hfirst Hr Htot; [lia|].
+  destruct vs as [|w rest].
+  { simpl. rewrite app_nil_r. subst rngs. reflexivity. }
+  cbn [outer].
+  destruct (search_spec offs w) as (Hs1 & Hs2 & Hs3).
+  set (i := search offs w) in *.
+  destruct (Nat.eqb i (length offs)) eqn:Ei.
+  - (* past the end: every remaining value is absent *)
+    apply Nat.eqb_eq in Ei. f_equal.
+    pose proof offs_nonempty as Hne.
+    destruct (value_at_some (pred (length offs))) as (vl & Hvl); [lia|].
+    assert (Hvlw : str_lt vl w) by (apply (Hs2 (pred (length offs))); [lia|exact Hvl]).
+    assert (Habs : forall v, In v (w :: rest) -> spec v = NotFound).
+    { intros v Hv. apply spec_absent. intro Hin.
+      assert (Hle : str_le v vl) by (eapply (G_last (pred (length offs))); eauto; lia).
+      assert (Hwv : str_le w v).
+      { destruct Hv as [->|Hv]; [apply str_le_refl|]. apply ssorted_head in Hvs.
+        rewrite Forall_forall in Hvs. apply Hvs. exact Hv. }
+      eapply str_lt_irrefl. eapply str_lt_le_trans; [exact Hvlw|]. eapply str_le_trans; eauto. }
+    rewrite map_app. rewrite (map_const_repeat spec NotFound (w :: rest) Habs).
+    subst rngs. rewrite map_length. subst total.
+    replace (length done + length (w :: rest) - length done)%nat with (length (w :: rest)) by lia.
+    reflexivity.
+  - apply Nat.eqb_neq in Ei. assert (Hilt : (i < length offs)%nat) by lia.
+    destruct (Hs3 Hilt) as (v & Hv & Hwv).
+    set (i2 := if (Nat.ltb 0 i) && negb (option_eqb str_eqb (value_at offs i) (Some w)) then pred i else i).
+    assert (Hstart : exists vi pre po d',
+               tbl = pre ++ (vi, po) :: d' /\ skipn (pos_at offs i2) tbl = (vi, po) :: d'
+               /\ Forall (fun e : entry => str_lt (fst e) w) pre
+               /\ mode i2 w ((vi, po) :: d') False).
+    { unfold i2. rewrite Hv. simpl option_eqb.
+      destruct (str_eqb v w) eqn:Evw.
+      - (* exact hit *)
+        apply str_eqb_eq in Evw. subst v. rewrite andb_false_r.
+        destruct (G_skip _ _ Hv) as (pre & po & d' & E1 & E2).
+        exists w, pre, po, d'. split; [exact E1|]. split; [exact E2|].
+        destruct (split_facts _ _ _ _ E1) as [Hp _]. split; [exact Hp|].
+        destruct (value_at offs (S i)) as [nv|] eqn:Env.
+        + left. exists nv. split; [exact Env|]. eapply (G_mono i (S i)); eauto.
+        + right. split; [|split; [exact Hv|left; eauto]].
+          unfold value_at in Env. destruct (nth_error offs (S i)) as [[? ?]|] eqn:En; [discriminate|].
+          apply nth_error_None in En. lia.
+      - apply str_eqb_false_ne in Evw.
+        assert (Hlt : str_lt w v) by (destruct (str_le_cases _ _ Hwv) as [->|H]; [congruence|exact H]).
+        destruct i as [|i0].
+        + exfalso. specialize (Hfirst w v eq_refl Hv). apply str_le_not_gt in Hfirst. contradiction.
+        + simpl. destruct (value_at_some i0) as (v' & Hv'); [lia|].
+          assert (Hv'w : str_lt v' w) by (apply (Hs2 i0); [lia|exact Hv']).
+          destruct (G_skip _ _ Hv') as (pre & po & d' & E1 & E2).
+          exists v', pre, po, d'. split; [exact E1|]. split; [exact E2|].
+          destruct (split_facts _ _ _ _ E1) as [Hp _]. split.
+          * eapply Forall_lt_le_trans; [exact Hp|]. apply str_lt_le. exact Hv'w.
+          * left. exists v. split; [exact Hv|exact Hlt]. }
+    fold i2.
+    destruct Hstart as (vi & pre & po & d' & E1 & E2 & Hp & Hmode). rewrite E2.
+    destruct (iter_ok ((vi, po) :: d') pre i2 (w :: rest) [] rngs done False E1 Hvs
+                (ex_intro _ w (conj eq_refl (conj Hp Hmode)))) as (k & Hit & Hprog).
+    { simpl. rewrite app_nil_r. exact Hr. }
+    rewrite Hit. destruct Hprog as [[]|Hk].
+    rewrite (IH (skipn k (w :: rest)) (done ++ firstn k (w :: rest)) _ total).
+    + rewrite <- app_assoc, firstn_skipn. reflexivity.
+    + rewrite skipn_length. cbn [length] in Hfuel |- *. lia.
+    + apply ssorted_skipn. exact Hvs.
+    + intros w' first Hw' Hf. eapply str_le_trans; [apply (Hfirst w first eq_refl Hf)|].
+      eapply sorted_skipn_hd; eauto.
+    + reflexivity.
+    + rewrite app_length, firstn_length, skipn_length. subst total. simpl length. lia.
+Qed.
+
+Lemma discard_spec first : forall vs, StronglySorted str_le vs ->
+  exists a, (a <= length vs)%nat /\ fst (discard first vs) = repeat NotFound a /\ snd (discard first vs) = skipn a vs
+    /\ (forall v, In v (firstn a vs) -> str_lt v first)
+    /\ (forall w, hd_error (skipn a vs) = Some w -> str_le first w).
+Proof.
+  induction vs as [|v r IH]; intro Hs.
+  - exists 0%nat. simpl. repeat split; try reflexivity; try lia; try discriminate; try (intros v []).
+  - simpl. destruct (str_ltb v first) eqn:E.
+    + destruct (IH (ssorted_tail _ _ _ Hs)) as (a & H0 & H1 & H2 & H3 & H4).
+      destruct (discard first r) as [p q]. simpl in *. exists (S a). simpl. subst.
+      repeat split; try reflexivity; try lia; [|exact H4].
+      intros v0 [->|Hv0]; [apply str_ltb_lt; exact E|apply H3; exact Hv0].
+    + exists 0%nat. simpl. split; [lia|]. split; [reflexivity|]. split; [reflexivity|]. split.
+      * intros v0 [].
+      * intros w Hw. inversion Hw; subst. apply str_ltb_false_le. exact E.
+Qed.
+
+Lemma postings_offset_ok : forall vs, StronglySorted str_le vs ->
+  postings_offset offs lv tbl vs = OK (map spec vs).
+Proof.
+  intros vs Hvs. unfold postings_offset. destruct vs as [|v0 vs0]; [reflexivity|].
+  set (vs := v0 :: vs0) in *.
+  destruct Hgood as (_ & _ & (first & orest & E) & _). rewrite E.
+  destruct (discard_spec first vs Hvs) as (a & Ha & H1 & H2 & H3 & H4).
+  destruct (discard first vs) as [p q]. simpl in H1, H2. subst p q.
+  assert (Hf0 : value_at offs 0 = Some first) by (rewrite E; reflexivity).
+  rewrite <- E.
+  rewrite (outer_ok (S (length (skipn a vs))) (skipn a vs) (firstn a vs) _ (length vs)).
+  - rewrite firstn_skipn. reflexivity.
+  - lia.
+  - apply ssorted_skipn. exact Hvs.
+  - intros w f Hw Hf. rewrite Hf0 in Hf. inversion Hf; subst f. apply H4. exact Hw.
+  - rewrite (map_const_repeat spec NotFound (firstn a vs)).
+    + rewrite firstn_length. f_equal. lia.
+    + intros v Hv. eapply spec_below_first; eauto.
+  - rewrite firstn_length, skipn_length. lia.
+Qed.
+
+(* ---------- LabelValues ---------- *)
+Lemma lv_scan_ok lastv po : forall d1 d2 acc,
+  Forall (fun e : entry => fst e <> lastv) d1 ->
+  lv_scan (d1 ++ (lastv, po) :: d2) lastv acc = Some (acc ++ keys d1 ++ [lastv]).
+Proof.
+  induction d1 as [|[v p] d1 IH]; intros d2 acc H; simpl.
+  - rewrite str_eqb_refl. reflexivity.
+  - inversion H as [|? ? Hv Hr]; subst. simpl in Hv. apply str_eqb_false_ne in Hv. rewrite Hv.
+    rewrite IH by exact Hr. rewrite <- app_assoc. reflexivity.
+Qed.
+
+Lemma label_values_unfold (o : list sample) t v0 rest vl :
+  o = (v0, 0%nat) :: rest -> value_at o (pred (length o)) = Some vl ->
+  label_values o t = lv_scan t vl [].
+Proof. intros -> H. unfold label_values. rewrite H. reflexivity. Qed.
+
+Lemma label_values_ok : label_values offs tbl = Some (keys tbl).
+Proof.
+  pose proof offs_nonempty as Hne.
+  destruct Hgood as (H1 & _ & (v0 & orest & E0) & (vl & front & El)).
+  assert (Hvl : value_at offs (pred (length offs)) = Some vl).
+  { rewrite El at 2. unfold value_at. rewrite El, app_length. simpl length.
+    replace (pred (length front + 1)) with (length front) by lia.
+    rewrite nth_error_app2 by lia. rewrite Nat.sub_diag. reflexivity. }
+  rewrite (label_values_unfold offs tbl v0 orest vl E0 Hvl).
+  assert (Hin : In (vl, pred (length tbl)) offs) by (rewrite El; apply in_or_app; right; left; reflexivity).
+  rewrite Forall_forall in H1. destruct (H1 _ Hin) as (po & Hpo). cbn [fst snd] in Hpo.
+  destruct (skipn_nth_split _ _ _ Hpo) as (l1 & l2 & Et & _ & Hl).
+  assert (l2 = []).
+  { assert (Hlen : length tbl = (length l1 + S (length l2))%nat) by (rewrite Et at 1; rewrite app_length; reflexivity).
+    destruct l2; [reflexivity|]. simpl in Hlen. unfold entry in *. lia. }
+  subst l2. destruct (split_facts _ _ _ _ Et) as [Hp _].
+  rewrite Et at 1. rewrite lv_scan_ok by (apply Forall_lt_ne; exact Hp).
+  simpl. rewrite Et. unfold keys. rewrite map_app. reflexivity.
+Qed.
+
 End Table.
+
+(* ---------- BinaryReader.init: the sampled offsets are good ---------- *)
+Lemma sample_last_switch_eq vc n : sample_last_switch vc n = sample_last_end vc n.
+Proof. reflexivity. Qed.
+
+Lemma sample_last_end_keep vc n : sample_last_end vc n = negb (sample_keep vc n).
+Proof. reflexivity. Qed.
+
+Lemma sample_keep_first n : sample_keep 1 n = true.
+Proof. unfold sample_keep. destruct n; reflexivity. Qed.
+
+Lemma ssorted_lt_snoc l y : StronglySorted lt l -> Forall (fun x => (x < y)%nat) l -> StronglySorted lt (l ++ [y]).
+Proof.
+  induction l as [|a l IH]; intros Hs Hf; simpl.
+  - constructor; constructor.
+  - inversion Hs as [|? ? Hs' Ha]; subst. inversion Hf as [|? ? Hay Hf']; subst.
+    constructor; [apply IH; assumption|]. apply Forall_app. split; [exact Ha|]. constructor; [exact Hay|constructor].
+Qed.
+
+Section Init.
+Variable n : Z.
+Variable tbl0 : list entry.
+
+Definition init_inv (done_t : list entry) (acc : list sample) (last : option sample) : Prop :=
+  Forall (fun s : sample => exists po, nth_error tbl0 (snd s) = Some (fst s, po)) acc
+  /\ StronglySorted lt (map snd acc)
+  /\ Forall (fun s : sample => (snd s < length done_t)%nat
+                               /\ (S (snd s) = length done_t -> sample_keep (Z.of_nat (length done_t)) n = true)) acc
+  /\ (done_t = [] -> acc = [] /\ last = None)
+  /\ (forall dt' v po, done_t = dt' ++ [(v, po)] ->
+        last = Some (v, length dt')
+        /\ (exists v0 rest, acc = (v0, 0%nat) :: rest)
+        /\ (sample_keep (Z.of_nat (length done_t)) n = true -> exists front, acc = front ++ [(v, length dt')])).
+
+Lemma init_loop_good : forall rem done_t acc last,
+  tbl0 = done_t ++ rem -> tbl0 <> [] -> init_inv done_t acc last ->
+  good_samples tbl0 (init_loop n rem (length done_t) (Z.of_nat (length done_t)) last acc).
+Proof.
+  induction rem as [|[v po] rem IH]; intros done_t acc last Et Hne (A1 & A2 & A3 & A4 & A5).
+  - rewrite app_nil_r in Et. subst done_t. simpl.
+    destruct (@exists_last _ tbl0 Hne) as (dt' & [vl pol] & El).
+    destruct (A5 _ _ _ El) as (Hlast & (v0 & rest & Hfirst) & Hkeep). rewrite Hlast.
+    assert (Hlen : length tbl0 = S (length dt')) by (rewrite El, app_length; simpl; lia).
+    assert (Hnth : nth_error tbl0 (length dt') = Some (vl, pol)).
+    { rewrite El. rewrite nth_error_app2 by lia. rewrite Nat.sub_diag. reflexivity. }
+    rewrite sample_last_end_keep. destruct (sample_keep (Z.of_nat (length tbl0)) n) eqn:Ek; simpl.
+    + destruct (Hkeep eq_refl) as (front & Hf).
+      repeat split; try assumption.
+      * exists v0, rest. exact Hfirst.
+      * exists vl, front. rewrite Hlen. simpl. exact Hf.
+    + repeat split.
+      * apply Forall_app. split; [exact A1|]. constructor; [|constructor]. exists pol. exact Hnth.
+      * rewrite map_app. simpl. apply ssorted_lt_snoc; [exact A2|].
+        rewrite Forall_map. eapply Forall_impl; [|exact A3]. intros [sv sp] (Hlt & Himp). simpl in *.
+        destruct (Nat.eq_dec (S sp) (length tbl0)) as [Heq|Hneq]; [specialize (Himp Heq); congruence|].
+        unfold entry in *. lia.
+      * exists v0, (rest ++ [(vl, length dt')]). rewrite Hfirst. reflexivity.
+      * exists vl, acc. rewrite Hlen. reflexivity.
+  - cbn [init_loop].
+    assert (Et' : tbl0 = (done_t ++ [(v, po)]) ++ rem) by (rewrite <- app_assoc; exact Et).
+    assert (Hlen' : length (done_t ++ [(v, po)]) = S (length done_t)) by (rewrite app_length; simpl; lia).
+    assert (Hvc : Z.of_nat (length done_t) + 1 = Z.of_nat (length (done_t ++ [(v, po)]))) by (rewrite Hlen'; lia).
+    rewrite Hvc. rewrite <- Hlen'.
+    apply IH; [exact Et' | exact Hne |].
+    assert (Hnth : nth_error tbl0 (length done_t) = Some (v, po)).
+    { rewrite Et. rewrite nth_error_app2 by lia. rewrite Nat.sub_diag. reflexivity. }
+    assert (A3' : Forall (fun s : sample => (snd s < length done_t)%nat) acc).
+    { eapply Forall_impl; [|exact A3]. intros a [H _]. exact H. }
+    unfold init_inv. rewrite Hlen'.
+    destruct (sample_keep (Z.of_nat (S (length done_t))) n) eqn:Ek.
+    + split; [|split; [|split; [|split]]].
+      * apply Forall_app. split; [exact A1|]. constructor; [|constructor]. exists po. exact Hnth.
+      * rewrite map_app. simpl. apply ssorted_lt_snoc; [exact A2|]. rewrite Forall_map. exact A3'.
+      * apply Forall_app. split.
+        -- eapply Forall_impl; [|exact A3']. intros a H. unfold entry, sample in *. split; [lia|]. intro; reflexivity.
+        -- constructor; [|constructor]. simpl. split; [lia|]. intros _. reflexivity.
+      * intro H. destruct done_t; discriminate.
+      * intros dt' v1 po1 H. apply app_inj_tail in H. destruct H as [H1 H2]. inversion H2; subst dt' v1 po1.
+        split; [reflexivity|]. split.
+        -- destruct done_t as [|e0 dt0].
+           ++ destruct (A4 eq_refl) as [-> _]. exists v, []. reflexivity.
+           ++ destruct (@exists_last _ (e0 :: dt0) ltac:(discriminate)) as (dd & [vv pp] & Ed).
+              destruct (A5 _ _ _ Ed) as (_ & (v0 & rest & Hf) & _). exists v0, (rest ++ [(v, length (e0 :: dt0))]).
+              rewrite Hf. reflexivity.
+        -- intros _. exists acc. reflexivity.
+    + split; [|split; [|split; [|split]]].
+      * exact A1.
+      * exact A2.
+      * eapply Forall_impl; [|exact A3']. intros a H. unfold entry, sample in *. split; [lia|]. intro; lia.
+      * intro H. destruct done_t; discriminate.
+      * intros dt' v1 po1 H. apply app_inj_tail in H. destruct H as [H1 H2]. inversion H2; subst dt' v1 po1.
+        split; [reflexivity|]. split.
+        -- destruct done_t as [|e0 dt0].
+           ++ exfalso. simpl in Ek. rewrite sample_keep_first in Ek. discriminate.
+           ++ destruct (@exists_last _ (e0 :: dt0) ltac:(discriminate)) as (dd & [vv pp] & Ed).
+              destruct (A5 _ _ _ Ed) as (_ & Hf & _). exact Hf.
+        -- intro Hc. discriminate.
+Qed.
+
+Lemma init_sample_good : tbl0 <> [] -> good_samples tbl0 (init_sample n tbl0).
+Proof.
+  intro Hne. unfold init_sample.
+  apply (init_loop_good tbl0 [] [] None); [reflexivity | exact Hne |].
+  split; [constructor|]. split; [constructor|]. split; [constructor|]. split; [intros _; split; reflexivity|].
+  intros dt' v po H. destruct dt'; discriminate.
+Qed.
+End Init.
+
+(* ---------- top-level statements ---------- *)
+Lemma offsets_eq_spec : forall n tbl next_off vs,
+  1 <= n -> tbl <> [] -> StronglySorted str_lt (keys tbl) -> StronglySorted str_le vs ->
+  postings_offset (init_sample n tbl) (last_val_offset next_off) tbl vs
+  = OK (map (spec_range tbl (last_val_offset next_off)) vs).
+Proof.
+  intros n tbl next_off vs _ Hne Hs Hvs.
+  apply postings_offset_ok; [exact Hs | apply init_sample_good; exact Hne | exact Hvs].
+Qed.
+
+Lemma label_values_eq : forall n tbl,
+  1 <= n -> tbl <> [] -> StronglySorted str_lt (keys tbl) ->
+  label_values (init_sample n tbl) tbl = Some (keys tbl).
+Proof.
+  intros n tbl _ Hne Hs. apply label_values_ok; [exact Hs | apply init_sample_good; exact Hne].
+Qed.
+
+Lemma sampled_ok : forall n tbl, 1 <= n -> tbl <> [] -> good_samples tbl (init_sample n tbl).
+Proof. intros n tbl _ Hne. apply init_sample_good. exact Hne. Qed.
+
+(* readable reading of the specification *)
+Lemma spec_found_at : forall tbl lv pre v po d',
+  StronglySorted str_lt (keys tbl) -> tbl = pre ++ (v, po) :: d' ->
+  spec_range tbl lv v = (po + 4, match d' with [] => lv | (_, po') :: _ => po' - 4 end).
+Proof. intros tbl lv pre v po d' Hs E. apply (spec_found tbl lv Hs pre v po d' E). Qed.
+
+Lemma spec_missing : forall tbl lv v, ~ In v (keys tbl) -> spec_range tbl lv v = (-1, -1).
+Proof. intros. apply spec_absent. assumption. Qed.
+
+Lemma range_eqb_refl r : range_eqb r r = true.
+Proof. unfold range_eqb. rewrite !Z.eqb_refl. reflexivity. Qed.
+
+Lemma list_eqb_refl {A} (eqb : A -> A -> bool) : (forall x, eqb x x = true) -> forall l, list_eqb eqb l l = true.
+Proof. intros H l. induction l; simpl; [reflexivity|]. rewrite H, IHl. reflexivity. Qed.
+
+Lemma sample_eqb_refl s : sample_eqb s s = true.
+Proof. unfold sample_eqb. rewrite str_eqb_refl, Nat.eqb_refl. reflexivity. Qed.
+
+Lemma name_case_ok : forall n tbl next_off vs,
+  1 <= n -> tbl <> [] -> StronglySorted str_lt (keys tbl) -> StronglySorted str_le vs ->
+  let offs := init_sample n tbl in
+  let lv := last_val_offset next_off in
+  exists out lvs,
+    postings_offset offs lv tbl vs = OK out /\ label_values offs tbl = Some lvs /\
+    out = map (spec_range tbl lv) vs /\ lvs = keys tbl /\
+    (* the case the harness would emit if the implementation agrees with the model and
+       the full index with the specification passes both checks *)
+    corr_ok (CName n tbl next_off offs lv [(vs, Some out, map (spec_range tbl lv) vs)] (Some lvs) (keys tbl)) = true /\
+    pred_ok (CName n tbl next_off offs lv [(vs, Some out, map (spec_range tbl lv) vs)] (Some lvs) (keys tbl)) = true.
+Proof.
+  intros n tbl next_off vs Hn Hne Hs Hvs offs lv.
+  exists (map (spec_range tbl lv) vs), (keys tbl).
+  pose proof (offsets_eq_spec n tbl next_off vs Hn Hne Hs Hvs) as H1.
+  pose proof (label_values_eq n tbl Hn Hne Hs) as H2.
+  fold offs in H1, H2. fold lv in H1.
+  split; [exact H1|]. split; [exact H2|]. split; [reflexivity|]. split; [reflexivity|].
+  split.
+  - unfold offs, lv in *. cbn [corr_ok]. cbv zeta. cbn [forallb]. rewrite H1, H2. cbn [res_eqb option_eqb].
+    rewrite (list_eqb_refl sample_eqb sample_eqb_refl), Z.eqb_refl.
+    rewrite !(list_eqb_refl range_eqb range_eqb_refl), (list_eqb_refl str_eqb str_eqb_refl). reflexivity.
+  - cbn [pred_ok forallb option_eqb].
+    rewrite (list_eqb_refl range_eqb range_eqb_refl), (list_eqb_refl str_eqb str_eqb_refl). reflexivity.
+Qed.
+
+(* ---------- LabelNames ---------- *)
+Lemma insert_in x y l : In y (insert_str x l) <-> y = x \/ In y l.
+Proof.
+  induction l as [|a l IH]; simpl; [intuition congruence|].
+  destruct (str_leb x a); simpl; [intuition congruence|]. rewrite IH. intuition.
+Qed.
+
+Lemma sort_in y l : In y (sort_str l) <-> In y l.
+Proof.
+  induction l as [|a l IH]; simpl; [tauto|]. rewrite insert_in, IH. intuition congruence.
+Qed.
+
+Lemma insert_sorted x l : StronglySorted str_le l -> StronglySorted str_le (insert_str x l).
+Proof.
+  induction l as [|a l IH]; intro H; simpl; [constructor; constructor|].
+  destruct (str_leb x a) eqn:E.
+  - apply str_leb_le in E. constructor; [exact H|]. constructor; [exact E|].
+    apply ssorted_head in H. eapply Forall_impl; [|exact H]. intros b Hb. eapply str_le_trans; eauto.
+  - apply str_leb_false_lt in E. constructor; [apply IH; eapply ssorted_tail; eauto|].
+    apply Forall_forall. intros b Hb. apply insert_in in Hb. destruct Hb as [->|Hb].
+    + apply str_lt_le. exact E.
+    + apply ssorted_head in H. rewrite Forall_forall in H. apply H. exact Hb.
+Qed.
+
+Lemma sort_sorted l : StronglySorted str_le (sort_str l).
+Proof. induction l; simpl; [constructor|apply insert_sorted; assumption]. Qed.
+
+Lemma mem_str_in x l : mem_str x l = true <-> In x l.
+Proof.
+  induction l as [|a l IH]; simpl; [intuition congruence|].
+  rewrite orb_true_iff, IH, str_eqb_eq. intuition congruence.
+Qed.
+
+Lemma dedup_in y l : In y (dedup_str l) <-> In y l.
+Proof.
+  induction l as [|a l IH]; simpl; [tauto|].
+  destruct (mem_str a l) eqn:E; simpl; rewrite IH.
+  - apply mem_str_in in E. intuition congruence.
+  - tauto.
+Qed.
+
+Lemma dedup_nodup l : NoDup (dedup_str l).
+Proof.
+  induction l as [|a l IH]; simpl; [constructor|].
+  destruct (mem_str a l) eqn:E; [exact IH|]. constructor; [|exact IH].
+  rewrite dedup_in. intro H. apply mem_str_in in H. congruence.
+Qed.
+
+Lemma label_names_ok : forall names,
+  StronglySorted str_le (label_names names)
+  /\ forall s, In s (label_names names) <-> (In s names /\ s <> []).
+Proof.
+  intro names. unfold label_names. split; [apply sort_sorted|].
+  intro s. rewrite sort_in, filter_In, dedup_in. destruct s; simpl; intuition congruence.
+Qed.
